@@ -178,6 +178,7 @@ type sched struct {
 	over       bool
 	enBuf      []*thread
 	closed     map[uintptr]any
+	inEvent    bool
 }
 
 var s *sched
@@ -268,7 +269,11 @@ func Go(f func()) {
 func (sc *sched) pick() *thread {
 	if sc.eventFn != nil && !sc.eventFired && len(sc.trace) >= sc.eventStep {
 		sc.eventFired = true
+		// the event runs on the scheduler's behalf, not on an engine thread: hooked
+		// operations it performs (Query.Cancel takes a mutex) are not scheduling points
+		sc.inEvent = true
 		sc.eventFn()
+		sc.inEvent = false
 	}
 	en := sc.enBuf[:0]
 	cur := sc.cur
@@ -352,6 +357,12 @@ func (sc *sched) finish() {
 // the operation is enabled.
 func point(kind OpKind, enabled func() bool) {
 	sc := s
+	if sc.inEvent {
+		if enabled != nil && !enabled() {
+			Unsupported("environment event blocks on " + kind.String())
+		}
+		return
+	}
 	t := sc.cur
 	if sc.over {
 		// the execution was abandoned (horizon/deadlock): park for ever
